@@ -65,11 +65,11 @@ def case(cfg, trims):
             c2 = dict(c, output_dir=tmp, output_label="fin")
             np.random.seed(c["seed"])
             sA = runs.build(c2)[0]
-            sA.run(n_total=c["n_total"], progress=False, save_every=3)
+            sA.run(n_total=c["n_total"], progress=runs.prog(c), save_every=3)
             fin = os.path.join(tmp, "fin_final.state")
             if os.path.exists(fin):
                 sB = runs.build(c2)[0]
-                sB.run(n_total=c["n_total"], progress=False, resume_state_path=fin)
+                sB.run(n_total=c["n_total"], progress=runs.prog(c), resume_state_path=fin)
                 HB = runs.history(sB)
                 _, _, lzB, essB = mis_ref(HB["logl"], HB["beta"], HB["logz"], 1.0)
                 evB = float(sB.evidence()[0])
@@ -93,12 +93,12 @@ def case(cfg, trims):
             c2 = dict(c, output_dir=tmp, output_label="rg")
             np.random.seed(c["seed"])
             sA = runs.build(c2)[0]
-            sA.run(n_total=c["n_total"], progress=False, save_every=2)
+            sA.run(n_total=c["n_total"], progress=runs.prog(c), save_every=2)
             files = sorted((f for f in os.listdir(tmp) if f.startswith("rg_") and "final" not in f), key=lambda f: int(f.split("_")[1].split(".")[0]))
             if files:
                 N2 = c["N"] * 4 if c["seed"] % 2 else max(8, c["N"] // 4)
                 sB = runs.build(dict(c2, N=N2))[0]
-                sB.run(n_total=c["n_total"], progress=False, resume_state_path=os.path.join(tmp, files[len(files) // 2]))
+                sB.run(n_total=c["n_total"], progress=runs.prog(c), resume_state_path=os.path.join(tmp, files[len(files) // 2]))
                 HB = runs.history(sB)
                 sizes = sorted(set(len(l) for l in HB["logl"]))
                 _, lwnB, lzB, essB = mis_ref(HB["logl"], HB["beta"], HB["logz"], 1.0)
@@ -124,7 +124,7 @@ def case(cfg, trims):
         try:
             np.random.seed(c["seed"] + 17)
             n2 = int(c["n_total"] * (1.5 if c["seed"] % 2 else 0.75))
-            s.run(n_total=n2, progress=False)
+            s.run(n_total=n2, progress=runs.prog(c))
             H2 = runs.history(s)
             _, lwn2, lz2, ess2 = mis_ref(H2["logl"], H2["beta"], H2["logz"], 1.0)
             out["rerun"] = 1
@@ -212,10 +212,10 @@ def reload_case(cfg):
         c = runs.full(cfg)
         np.random.seed(c["seed"])
         sA = runs.build(c)[0]
-        sA.run(n_total=c["n_total"], progress=False)
+        sA.run(n_total=c["n_total"], progress=runs.prog(c))
         np.random.seed(c["seed"] + 1)
         sB = runs.build(c)[0]
-        sB.run(n_total=c["n_total"], progress=False)
+        sB.run(n_total=c["n_total"], progress=runs.prog(c))
         # equalise the number of iterations by letting the shorter run take further iterations at beta = 1
         for _ in range(40):
             la, lb = sA.state.get_history_length(), sB.state.get_history_length()
@@ -240,7 +240,7 @@ def reload_case(cfg):
         d = np.asarray(lw, float) - np.asarray(lwn, float) if len(lw) == len(lwn) else np.array([0.0, 1.0])
         if np.max(d) - np.min(d) > 1e-8:
             bad.append(("posterior-logw-misaligned", "after loading another run's final state: returned log-weights are not those of the loaded history"))
-        sA.run(n_total=c["n_total"], progress=False, resume_state_path=pB)
+        sA.run(n_total=c["n_total"], progress=runs.prog(c), resume_state_path=pB)
         H2 = runs.history(sA)
         _, _, lz2, ess2 = mis_ref(H2["logl"], H2["beta"], H2["logz"], 1.0)
         ev = float(sA.evidence()[0])
